@@ -1109,7 +1109,20 @@ class Searcher:
         for ext in (b"\x00", b"\x30", bytes([self.r.randrange(256)]), enc[-1:] * 2, b"\x00" * 16):
             self.probe(dec, f, enc + ext, "reject", "extension by %d bytes of %s" % (len(ext), label), c.name)
 
-    def mutate(self, c, label, dec, f, enc, fraction=1.0):
+    def mutate(self, c, label, dec, f, enc, fraction=1.0, sk=None):
+        K = self.I.keys
+        regions = None
+        if sk is not None:
+            # where the key material itself sits in the encoding: a mutation OUTSIDE these bytes (a length byte, a tag, a
+            # version, an OID ...) that is accepted must not silently give ANOTHER key
+            L = len(sk.to_string())
+            x, y = int(sk.verifying_key.pubkey.point.x()), int(sk.verifying_key.pubkey.point.y())
+            regions = []
+            for blob, before in ((sk.to_string(), 0), (x.to_bytes(L, "big"), 1), (y.to_bytes(L, "big"), 0)):
+                at = enc.find(blob)
+                while at >= 0:
+                    regions.append((at - before, at + len(blob)))
+                    at = enc.find(blob, at + 1)
         idx = list(range(len(enc)))
         if fraction < 1.0:
             head = idx[:12]
@@ -1122,8 +1135,22 @@ class Searcher:
                 return False
             for name, v in (("xor01", enc[i] ^ 1), ("xor80", enc[i] ^ 0x80), ("set00", 0), ("setFF", 0xFF)):
                 if v != enc[i]:
-                    self.probe(dec, f, enc[:i] + bytes([v]) + enc[i + 1:], "any",
-                               "mutation %s at %d of %s" % (name, i, label), c.name)
+                    m = enc[:i] + bytes([v]) + enc[i + 1:]
+                    res = self.probe(dec, f, m, "any", "mutation %s at %d of %s" % (name, i, label), c.name)
+                    if res is not None and regions and not any(a <= i < b for a, b in regions):
+                        changed = None
+                        if isinstance(res, K.SigningKey) and res.curve == sk.curve and \
+                                res.privkey.secret_multiplier != sk.privkey.secret_multiplier:
+                            changed = "another private key (%x)" % res.privkey.secret_multiplier
+                        elif isinstance(res, K.VerifyingKey) and res.curve == sk.curve and \
+                                (int(res.pubkey.point.x()), int(res.pubkey.point.y())) != \
+                                (int(sk.verifying_key.pubkey.point.x()), int(sk.verifying_key.pubkey.point.y())):
+                            changed = "another public point"
+                        if changed:
+                            self.fail("mutation-outside-key-changes-key:%s" % dec,
+                                      {"decoder": dec, "curve": c.name, "input": m, "how": "mutation %s at %d of %s" % (name, i, label)},
+                                      "a single-byte change outside the key bytes (offset %d: %02x -> %02x) is accepted and decodes to %s"
+                                      % (i, enc[i], v, changed))
         return True
 
 
@@ -1283,14 +1310,14 @@ def search(ctx):
                         continue
                     step = 1 if (not quick or not explicit or c.name == "NIST256p") else 7
                     S.truncations_extensions(c, label, dec, f, enc, step)
-                    plan.append((c, kind, label, dec, f, enc))
+                    plan.append((c, kind, label, dec, f, enc, sk))
             all_point_encodings_check(S, c, sk.verifying_key)
             # PEM: cutting into the base64 payload must be rejected; the mutation pass is below
             for label, dec, f, pem, want, key in S.pems_of(c, sk)[:3 if quick else 6]:
                 end_payload = pem.index(b"\n-----END")
                 for k in sorted(set(r.randrange(1, end_payload) for _ in range(8 if quick else 40)) | {end_payload - 1}):
                     S.probe(dec, f, pem[:k], "reject", "truncation to %d of %d bytes of %s" % (k, len(pem), label), c.name)
-                plan.append((c, kind, label, dec, f, pem))
+                plan.append((c, kind, label, dec, f, pem, None))
         ctx.sample({"curve": c.name, "key": keys[0][0], "spki": keys[0][1].verifying_key.to_der()})
     # 1b. the ends of the scalar range: 1, 2, n-2, n-1 are keys; 0, n, n+1, 2^bits-1 are not
     search_scalar_range(S, plan, quick)
@@ -1341,10 +1368,10 @@ def search(ctx):
                                                     plan[i][0].name not in HEAVY, r.random()))
     done = 0
     for i in order:
-        c, kind, label, dec, f, enc = plan[i]
+        c, kind, label, dec, f, enc, psk = plan[i]
         heavy = label.endswith("/explicit") or label.startswith("pem")
         fraction = 1.0 if not quick else (0.08 if heavy else (1.0 if c.name in HEAVY and label.split("/")[1:2] != ["hybrid"] else 0.15))
-        if not S.mutate(c, label, dec, f, enc, fraction):
+        if not S.mutate(c, label, dec, f, enc, fraction, sk=psk):
             break
         done += 1
     ctx.extra["mutation_passes_done"] = "%d of %d encodings" % (done, len(plan))
@@ -1419,7 +1446,7 @@ def search_scalar_range(S, plan, quick):
                             S.probe(dec, f, enc[:j] + bytes([v]) + enc[j + 1:], "any",
                                     "mutation %s at %d of %s (scalar byte %d of the %s key)" % (name, j, label, i, kind), c.name)
                 if not quick and k == n - 1:
-                    plan.append((c, kind, label, dec, f, enc))
+                    plan.append((c, kind, label, dec, f, enc, None))
             if k != n - 1:
                 continue
             # out-of-range scalars, written into the encodings of the key n-1 (public key part unchanged)
